@@ -52,7 +52,12 @@ class Region:
     def name(self):
         if self.kind == "fn":
             c = self.args[1]
-            return (c.split(":", 1)[1] + "::" if c != "-" else "") + self.args[2]
+            if c == "-":
+                return self.args[2]
+            ty = c.split(":", 1)[1].split("@for@")[-1]
+            ty = re.sub(r"^<[^>]*>", "", ty)          # impl<T> Timer<T>
+            ty = re.sub(r"<.*$", "", ty)
+            return ty + "::" + self.args[2]
         return self.args[-1]
 
     def props(self):
@@ -201,7 +206,7 @@ def build_region(r):
             r.item = it
             extra = [x for x in r.opts.get("rules", "").split(",") if x]
             cur = rules.normalise_fn(it.tokens, extra, r.firings, "%s::%s" % (path, r.name))
-            if " for " in " " + re.sub(r"([A-Za-z0-9_>])for([A-Z])", r"\1 for \2", cont) + " " or "nopub" in r.opts:
+            if "@for@" in cont or "nopub" in r.opts:
                 cur = cur[1:]   # trait impl methods carry no visibility
             ann = lex.tokenize(r.body)
             base = erase.erase(ann)
@@ -331,7 +336,7 @@ def _canary(txt):
     return txt[:pos] + " assert(false); /*canary*/ " + txt[pos:]
 
 
-TRUST_RE = re.compile(r"assume_specification|external_body|\baxiom\b|assume\s*\(|admit\s*\(|external_type_specification|#\[verifier::external\]|uninterp\s+spec")
+TRUST_RE = re.compile(r"TRUSTED:|assume_specification|external_body|\baxiom\b|assume\s*\(|admit\s*\(|external_type_specification|#\[verifier::external\]|uninterp\s+spec")
 
 
 def trusted_scan(text):
@@ -339,7 +344,7 @@ def trusted_scan(text):
     out = []
     lines = text.split("\n")
     for k, l in enumerate(lines):
-        if l.strip().startswith("//"):
+        if l.strip().startswith("//") and "TRUSTED:" not in l:
             continue
         m = TRUST_RE.search(l)
         if not m:
@@ -480,3 +485,39 @@ def breakdown(res):
         for f in m.get("function-breakdown", []):
             out.append(f)
     return out
+
+
+def props_of_fn(built, fn):
+    """`//@props C10,C12` on the line before a lemma/helper outside regions"""
+    lines = built.text.split("\n")
+    pat = re.compile(r"\bfn\s+" + re.escape(fn.split("::")[-1]) + r"\b")
+    for k, l in enumerate(lines):
+        if pat.search(l):
+            for q in range(k - 1, max(-1, k - 4), -1):
+                m = re.match(r"\s*//@props\s+(\S+)", lines[q])
+                if m:
+                    return m.group(1).split(",")
+                if lines[q].strip() and not lines[q].strip().startswith("//"):
+                    break
+            return None
+    return None
+
+
+def sample_obligations(built, pid, limit=6):
+    """a few labelled clauses of this property written out (function, clause text, label)"""
+    out = []
+    lines = built.text.split("\n")
+    for k, l in enumerate(lines):
+        m = re.search(r"//\s*@(" + re.escape(pid) + r"\.[A-Za-z0-9_.:#\-]+)", l)
+        if m:
+            fn = None
+            r = region_at(built, k + 1)
+            fn = r.name if r else enclosing_fn(built, k + 1)
+            out.append({"function": fn, "clause": l.split("//")[0].strip().rstrip(","), "label": m.group(1)})
+    # spread the samples over different functions
+    seen, picked = set(), []
+    for o in out:
+        if o["function"] not in seen:
+            picked.append(o)
+            seen.add(o["function"])
+    return (picked + [o for o in out if o not in picked])[:limit]
